@@ -10,6 +10,8 @@
 extern crate noop_tracing as tracing;
 
 pub mod shim;
+#[path = "gen/chunks.rs"]
+pub mod chunks;
 #[path = "gen/self_encryption.rs"]
 pub mod self_encryption;
 #[path = "gen/data_items.rs"]
